@@ -21,7 +21,7 @@ UNIT = Unit(
            injects=[Inject(("after_let", "divider"), "proof { assert(divider < 128); }"),
                     Inject(("after_let", "reward"), """proof { assert(reward == spec_tip909_reward(self.height.0)); let d = divider;
                         assert(((1u128 << 20) >> d) <= 0x100000u128) by (bit_vector) requires d < 128u64; }"""),
-                    Inject(("after_let", "tip909a_erg_subsidy"), "proof { assert(reward >> 8 <= reward) by (bit_vector); }"),
+                    Inject(("after_let", "tip909a_erg_subsidy"), "proof { assert(reward >> 8 <= reward) by (bit_vector); assert(reward >> 8 == reward / 256) by (bit_vector); }"),
                     Inject(("after_let", "fee_subsidy"), "proof { assert(fee_subsidy == spec_tip909_fee_part(reward, spec_tip(self.network, self.height, 1048000))); }"),
                     Inject(("after_let", "erg_subsidy"), "proof { assert(erg_subsidy == spec_tip909_erg_part(reward, spec_tip(self.network, self.height, 1048000))); }"),
                     Inject(("before", "let erg_subsidy"), "let ghost melg = mel as int; let ghost sm0 = old(self).pools@[pk_mel_sym()]; let ghost sm1 = self.pools@[pk_mel_sym()]; proof { assert(right_fed(sm0, sm1, fee_subsidy as int, melg)); }"),
